@@ -90,6 +90,11 @@ class APIPlaintextFrameHelper(APIFrameHelper):
 
             self._remove_from_buffer()
             self._connection.process_packet(msg_type, packet_data)
+            if self._transport is None:
+                # Processing the packet closed the connection (ie. a
+                # disconnect request), anything that followed it in
+                # the same chunk must not be processed anymore.
+                return
             # If we have more data, continue processing
 
     def _error_on_incorrect_preamble(self, preamble: _int) -> None:
